@@ -74,5 +74,32 @@ def main_zip():
     sys.exit(1 if bad else 0)
 
 
+def main_single_slack():
+    """networks for which the fast single-slack result routine is a candidate: one ext_grid, no gens; shunt-type elements whose rated
+    powers cancel in total (capacitor + reactor, wards with opposite constant-impedance parts, a shunt with q = -p) must still be balanced"""
+    fails = []
+    for name, adder in (
+            ("capacitor and reactor of equal rating at different buses", lambda n, b: (pp.create_shunt(n, b[1], q_mvar=-1.5, p_mw=0.), pp.create_shunt(n, b[3], q_mvar=1.5, p_mw=0.))),
+            ("two wards whose constant-impedance parts cancel", lambda n, b: (pp.create_ward(n, b[1], 0.1, 0.05, 0.8, 0.4), pp.create_ward(n, b[2], 0.1, 0.05, -0.8, -0.4))),
+            ("one shunt with p_mw = q_mvar", lambda n, b: (pp.create_shunt(n, b[2], q_mvar=0.9, p_mw=0.9),)),
+            ("no shunt", lambda n, b: ())):
+        net = pp.create_empty_network()
+        b = pp.create_buses(net, 4, 20.)
+        pp.create_ext_grid(net, b[0], vm_pu=1.02)
+        for f, t in ((0, 1), (1, 2), (2, 3)):
+            pp.create_line_from_parameters(net, b[f], b[t], 5., 0.12, 0.11, 250., 0.6)
+        pp.create_load(net, b[3], 3., 1.); pp.create_load(net, b[2], 2., .5)
+        adder(net, b)
+        for kw in (dict(), dict(numba=False)):
+            pp.runpp(net, **kw)
+            for m in balance(net):
+                fails.append(f"{name} {kw}: {m}")
+    for f in fails:
+        print("REPRODUCED:", f)
+    if not fails:
+        print("not reproduced: nodal balance holds with cancelling shunt elements and a single slack")
+    sys.exit(1 if fails else 0)
+
+
 if __name__ == "__main__":
-    {"main": main, "zip": main_zip}[sys.argv[1] if len(sys.argv) > 1 else "main"]()
+    {"main": main, "zip": main_zip, "single_slack": main_single_slack}[sys.argv[1] if len(sys.argv) > 1 else "main"]()
